@@ -448,6 +448,36 @@ func c20CheckModule(c *config, r *rng, defs []c20Def, sample bool) {
 			o.Case("idsort", []string{strings.Join(textual[cat], ",")}, []string{strings.Join(ord[cat], ",")})
 			o.Stat("modorder." + cat)
 		}
+		// the printed order of the sorted categories is ascending under the library's own natural comparison
+		// (whose agreement with the model is leg C), by ID for the rest
+		for _, cat := range c20Sorted {
+			okc := true
+			for i := 0; i+1 < len(ord[cat]); i++ {
+				if !less(ord[cat][i], ord[cat][i+1]) {
+					okc = false
+				}
+			}
+			if !okc {
+				o.Fail("canonical_order", "", cat+" definitions of a parsed module are not printed in natural order", map[string]interface{}{"src": src, "printed": ord[cat]})
+			} else {
+				o.Pass("canonical_order")
+			}
+		}
+		for _, cat := range c20ByID {
+			okc := true
+			for i := 0; i+1 < len(ord[cat]); i++ {
+				a, _ := new(big.Int).SetString(ord[cat][i], 10)
+				b, _ := new(big.Int).SetString(ord[cat][i+1], 10)
+				if a == nil || b == nil || a.Cmp(b) >= 0 {
+					okc = false
+				}
+			}
+			if !okc {
+				o.Fail("canonical_order", "", cat+" definitions of a parsed module are not printed by ascending ID", map[string]interface{}{"src": src, "printed": ord[cat]})
+			} else {
+				o.Pass("canonical_order")
+			}
+		}
 		for _, cat := range c20Textual {
 			if strings.Join(textual[cat], ",") != strings.Join(ord[cat], ",") {
 				o.Fail("textual_order_kept", "", cat, map[string]interface{}{"src": src, "printed": ord[cat], "textual": textual[cat]})
